@@ -14,7 +14,7 @@ import itertools
 import json
 
 from glom import (glom, T, S, A, Val, Spec, Ref, Pipe, Coalesce, And, Or, Switch, Match, Regex, Vars, Let, Invoke, Auto,
-                  GlomError, PathAccessError, Iter)
+                  GlomError, PathAccessError, Iter, Path)
 
 from ..engine import R, Sub
 
@@ -649,10 +649,77 @@ def run_binder_reuse(case):
     return R(None, template, nontrivial=True, steps=1, tags={vkind, template, 'shared' if shared else 'fresh'})
 
 
+# ---------------------------------------------------------------------------
+# an inner binding shadows the outer one whatever its VALUE is (None, 0, '', [] ...), for every way of reading the name;
+# a Spec(scope=) object re-asserts its names every time it is evaluated
+
+SHADOW_VALUES = {'none': None, 'zero': 0, 'empty-str': '', 'empty-list': [], 'false': False, 'str': 'inner', 'nan-like-tuple': ()}
+SHADOW_BINDERS = ['S-call', 'A-name', 'spec-scope', 'caller-scope-then-S']
+SHADOW_READERS = {'S.x': lambda: S.x, "S['x']": lambda: S['x'], 'Path(S, x)': lambda: Path(S, 'x'), 'in-dict': lambda: {'r': S.x},
+                  'in-arg': lambda: Invoke(lambda v: v).specs(S.x)}
+
+
+def run_shadow(case):
+    vname, binder, rname = case
+    v = SHADOW_VALUES[vname]
+    reader = SHADOW_READERS[rname]()
+    kwargs = {}
+    if binder == 'S-call':
+        inner = (S(x=Val(v)), reader)
+    elif binder == 'A-name':
+        inner = (Val(v), A.x, reader)
+    elif binder == 'spec-scope':
+        inner = Spec(reader, scope={'x': v})
+    else:
+        inner = (S(x=Val(v)), reader)
+        kwargs = {'scope': {'x': 'from-caller'}}
+    spec = (S(x=Val('outer')), {'in': inner, 'out': S.x})
+    want_in = {'r': v} if rname == 'in-dict' else v
+    try:
+        got = glom({'t': 1}, spec, **kwargs)
+    except Exception as e:
+        got = e
+    if isinstance(got, Exception) or got != {'in': want_in, 'out': 'outer'} or type(got['in']) is not type(want_in):
+        return R({'expected': repr({'in': want_in, 'out': 'outer'}), 'observed': repr(got), 'value': vname, 'binder': binder, 'reader': rname}, 'shadow')
+    return R(None, binder, nontrivial=True, steps=1, tags={vname, binder, rname})
+
+
+RESPEC_TEMPLATES = ['chain', 'siblings', 'pipe', 'after-A', 'nested-in-itself-via-ref']
+
+
+def run_respec(case):
+    template, vname = case
+    v = SHADOW_VALUES[vname]
+    sp = Spec(S.k, scope={'k': v})
+    if template == 'chain':
+        spec, want = (sp, S(k=Val('re')), sp), v
+    elif template == 'siblings':
+        spec, want = {'a': sp, 'b': (S(k=Val('re')), sp), 'c': (S(k=Val('re')), S.k)}, {'a': v, 'b': v, 'c': 're'}
+    elif template == 'pipe':
+        spec, want = Pipe(sp, S(k=Val('re')), Val(0), sp), v
+    elif template == 'after-A':
+        spec, want = (sp, Val('re'), A.k, sp), v
+    else:
+        spec, want = (S(k=Val('outer')), Spec((S(k=Val('re')), sp), scope={'k': 'mid'})), v
+    try:
+        got = glom({'t': 1}, spec)
+    except Exception as e:
+        got = e
+    if isinstance(got, Exception) or got != want:
+        return R({'expected': repr(want), 'observed': repr(got), 'template': template, 'value': vname}, 'respec')
+    return R(None, template, nontrivial=True, steps=1, tags={template})
+
+
 def subs(tier, only=None):
     from ..engine import fast_tracebacks
     fast_tracebacks()
     out = [
+        Sub('shadowing-values', [[v, b, r] for v in SHADOW_VALUES for b in SHADOW_BINDERS for r in SHADOW_READERS], run_shadow,
+            rule='case = (value of the inner binding incl. None / 0 / empty containers, kind of inner binder, way of reading the name): the inner '
+                 'value is read inside, the outer one outside', min_nontrivial=100, min_outcomes=4, required_tags=['none', 'S.x', 'spec-scope']),
+        Sub('spec-scope-reasserted', [[t, v] for t in RESPEC_TEMPLATES for v in SHADOW_VALUES], run_respec,
+            rule='case = (composite in which ONE Spec(scope=) object is evaluated twice with a re-binding of its name in between, value): '
+                 'the Spec sees its own scope both times', min_nontrivial=30, min_outcomes=5, required_tags=['chain', 'siblings']),
         Sub('binder-reuse', [[v, t, sh] for v in BINDER_VALUES for t in BINDER_TEMPLATES for sh in (True, False)], run_binder_reuse,
             rule='case = (binder value: S.x alone or inside a list / dict / tuple / set literal, composite in which the binder is evaluated twice under '
                  'different bindings of x - sibling dict values, re-binding in one chain, list items, a retried Coalesce branch, feeding its own result; '
